@@ -69,6 +69,7 @@ type run struct {
 	hist   []string
 	hmu    sync.Mutex
 	gotLog []string
+	gmu    sync.Mutex // guards gotLog
 	rev2   bool // the server advertises IMAP4rev2 (never enabled by the client here)
 }
 
@@ -764,6 +765,166 @@ func (r *run) selectMailbox(t *rapid.T, name string, reselect bool) {
 	r.checkMirror("after SELECT " + name)
 }
 
+// idleRound: while IDLE is running (it holds the encoder), a second goroutine
+// submits EXPUNGE, which has to wait; the server then sends a unilateral
+// EXPUNGE, and only after DONE the queued command goes out and gets its own
+// data. The unilateral one belongs to the handler, not to the waiting command.
+func (r *run) idleRound(t *rapid.T) {
+	if r.m.exists < 3 {
+		return
+	}
+	uni := uint32(rapid.IntRange(1, int(r.m.exists)).Draw(t, "idle.unilateral"))
+	own := uint32(rapid.IntRange(1, int(r.m.exists)-1).Draw(t, "idle.own"))
+	// Idle() returns once the continuation request has arrived
+	type idleRes struct {
+		cmd *imapclient.IdleCommand
+		err error
+	}
+	idleCh := make(chan idleRes, 1)
+	go func() { c, err := r.c.Idle(); idleCh <- idleRes{c, err} }()
+	cmd, err := r.s.ReadCommand()
+	if err != nil || cmd.Name != "IDLE" {
+		r.fail("idle round: expected IDLE, got %v %v", cmd, err)
+	}
+	r.log("C: %s", strings.TrimSpace(string(cmd.Raw)))
+	idleTag := cmd.Tag
+	r.send("+ idling")
+	var idle *imapclient.IdleCommand
+	select {
+	case x := <-idleCh:
+		if x.err != nil {
+			r.fail("idle round: Idle: %v", x.err)
+		}
+		idle = x.cmd
+	case <-time.After(10 * time.Second):
+		r.fail("idle round: Idle() did not return after the continuation request")
+	}
+	type res struct {
+		nums []uint32
+		err  error
+	}
+	done := make(chan res, 1)
+	go func() {
+		nums, err := r.c.Expunge().Collect() // blocks until IDLE releases the encoder
+		done <- res{nums, err}
+	}()
+	time.Sleep(time.Duration(rapid.IntRange(0, 3).Draw(t, "idle.delay")) * time.Millisecond)
+	r.send(fmt.Sprintf("* %d EXPUNGE", uni))
+	r.m.exists--
+	r.m.handlerLog = append(r.m.handlerLog, fmt.Sprintf("expunge:%d", uni))
+	// The client is only bound to treat it as unilateral once it has processed
+	// it before the queued command is sent (afterwards it cannot tell it from
+	// the command's own data): wait until the EXISTS sent right behind it has
+	// reached the handler (responses are processed in order).
+	r.send(fmt.Sprintf("* %d EXISTS", r.m.exists))
+	r.m.handlerLog = append(r.m.handlerLog, fmt.Sprintf("mailbox:exists=%d", r.m.exists))
+	wantSeen := 0
+	for _, w := range r.m.handlerLog {
+		if strings.HasPrefix(w, "mailbox:exists=") {
+			wantSeen++
+		}
+	}
+	processed := false
+	for deadline := time.Now().Add(5 * time.Second); time.Now().Before(deadline); time.Sleep(100 * time.Microsecond) {
+		n := 0
+		r.gmu.Lock()
+		for _, g := range r.gotLog {
+			if strings.HasPrefix(g, "mailbox:exists=") {
+				n++
+			}
+		}
+		r.gmu.Unlock()
+		if n >= wantSeen {
+			processed = true
+			break
+		}
+	}
+	if werr := cs.Within(10*time.Second, "idle.Close", func() error { return idle.Close() }); werr != nil {
+		r.fail("idle round: IdleCommand.Close: %v", werr)
+	}
+	if l, err := r.s.ReadRawLine(); err != nil || l != "DONE" {
+		r.fail("idle round: expected DONE, got %q %v", l, err)
+	}
+	r.send(idleTag + " OK IDLE terminated")
+	if werr := cs.Within(10*time.Second, "idle.Wait", func() error { return idle.Wait() }); werr != nil {
+		r.fail("idle round: IdleCommand.Wait: %v", werr)
+	}
+	cmd, err = r.s.ReadCommand()
+	if err != nil || cmd.Name != "EXPUNGE" {
+		r.fail("idle round: expected the queued EXPUNGE, got %v %v", cmd, err)
+	}
+	r.log("C: %s", strings.TrimSpace(string(cmd.Raw)))
+	r.send(fmt.Sprintf("* %d EXPUNGE", own))
+	r.m.exists--
+	r.send(cmd.Tag + " OK EXPUNGE completed")
+	select {
+	case x := <-done:
+		if x.err != nil || (processed && fmt.Sprint(x.nums) != fmt.Sprint([]uint32{own})) {
+			r.fail("idle round: the EXPUNGE command that waited behind IDLE delivered %v (%v); the transcript addressed [%d] to it (EXPUNGE %d was unilateral, sent while the command had not been sent yet)", x.nums, x.err, own, uni)
+		}
+	case <-time.After(10 * time.Second):
+		r.fail("idle round: the queued EXPUNGE did not complete")
+	}
+	r.sync()
+	r.checkMirror("after the IDLE round")
+	ev.Class("idle-round:command-queued-behind-idle")
+}
+
+// literalRetryRound: a command with two synchronising literals is refused at
+// the first one; the connection stays usable, and the next command with a
+// synchronising literal gets its own continuation request.
+func (r *run) literalRetryRound(t *rapid.T) {
+	status := rapid.SampledFrom([]string{"NO", "BAD"}).Draw(t, "retry.status")
+	r.s.OnLiteral = func(*script.LiteralEvent) script.Decision { return script.Refuse }
+	done := make(chan error, 1)
+	go func() { done <- r.c.Login("us\r\ner", "pa\r\nss").Wait() }()
+	cmd, err := r.s.ReadCommand()
+	if err != nil || !cmd.Refused {
+		r.fail("literal round: expected a LOGIN stopped at its first literal, got %v %v", cmd, err)
+	}
+	r.log("C: %s", strings.TrimSpace(clip(string(cmd.Raw))))
+	r.send(cmd.Tag + " " + status + " literal refused")
+	select {
+	case err := <-done:
+		if errKey(err) != status+"[]" {
+			r.fail("literal round: LOGIN refused with %s completed with %s", status, errKey(err))
+		}
+	case <-time.After(10 * time.Second):
+		r.fail("literal round: the refused LOGIN did not complete")
+	}
+	r.s.OnLiteral = nil
+	// now a command whose literal is accepted
+	adone := make(chan error, 1)
+	go func() {
+		cmd := r.c.Append("box", 5, nil)
+		cmd.Write([]byte("hello"))
+		cmd.Close()
+		_, err := cmd.Wait()
+		adone <- err
+	}()
+	rd := make(chan error, 1)
+	go func() {
+		cmd, err := r.s.ReadCommand()
+		if err == nil {
+			r.log("C: %s", strings.TrimSpace(clip(string(cmd.Raw))))
+			r.send(cmd.Tag + " OK APPEND completed")
+		}
+		rd <- err
+	}()
+	select {
+	case err := <-adone:
+		if err != nil {
+			r.fail("literal round: APPEND after the refused LOGIN failed: %v", err)
+		}
+	case <-time.After(10 * time.Second):
+		r.fail("literal round: after a command with two literals was refused at the first one, an APPEND (whose literal the server accepts) never completes")
+	}
+	<-rd
+	r.sync()
+	r.checkMirror("after the literal round")
+	ev.Class("literal-round:refused-two-literal-command-then-append")
+}
+
 // logoutRound: LOGOUT with 0-2 commands pipelined behind it. The server
 // processes LOGOUT first (commands are processed in order), says BYE, completes
 // LOGOUT and closes the connection; what was sent behind it is never answered.
@@ -827,7 +988,7 @@ func TestPropRouting(t *testing.T) {
 	rapid.Check(t, func(t *rapid.T) {
 		clientEnd, s := script.New()
 		r := &run{t: t, s: s}
-		var mu sync.Mutex
+		mu := &r.gmu
 		opts := &imapclient.Options{UnilateralDataHandler: &imapclient.UnilateralDataHandler{
 			Expunge: func(n uint32) { mu.Lock(); r.gotLog = append(r.gotLog, fmt.Sprintf("expunge:%d", n)); mu.Unlock() },
 			Mailbox: func(d *imapclient.UnilateralDataMailbox) {
@@ -888,6 +1049,16 @@ func TestPropRouting(t *testing.T) {
 			if rapid.IntRange(0, 5).Draw(t, "reselect") == 4 {
 				r.selectMailbox(t, fmt.Sprintf("other%d", i), true)
 				continue
+			}
+			switch rapid.IntRange(0, 7).Draw(t, "special-round") {
+			case 0:
+				r.idleRound(t)
+				continue
+			case 1:
+				if !r.rev2 {
+					r.literalRetryRound(t)
+					continue
+				}
 			}
 			o, u := r.round(t, i)
 			ooo, upd = ooo || o, upd || u
